@@ -1,0 +1,14 @@
+//go:build verif
+
+package daemon
+
+import "time"
+
+// VerifC27SetTimeouts lets the C27 verification harness enlarge the two polling
+// bounds of Activate (spawn wait, kill wait) so that a heavily loaded machine does
+// not turn every activation into a timeout error.  Only the bounds change; the
+// protocol steps are untouched.  Add-only hook, compiled with -tags verif only.
+func VerifC27SetTimeouts(spawn, kill time.Duration) {
+	daemonSpawnTimeout = spawn
+	daemonKillTimeout = kill
+}
